@@ -57,6 +57,7 @@ class Interp(StmtMixin, ExprMixin, CallMixin, BuiltinMixin, OMapMixin, EngineBas
         self.frame_entry = []
         self.gen_stack = []
         self.loop_stack = []
+        self.loop_ghosts = []
         self.loop_writes = {}
         self.discovery = False
         self.handling = []
@@ -202,6 +203,7 @@ class Interp(StmtMixin, ExprMixin, CallMixin, BuiltinMixin, OMapMixin, EngineBas
         self.frame_entry = []
         self.gen_stack = []
         self.loop_stack = []
+        self.loop_ghosts = []
         self.call_depth = 0
         self.handling = []
         self._fid = 0
